@@ -41,11 +41,11 @@ func sizes(tier string) (dyn, static, micro int) {
 	if tier == "thorough" {
 		return 2000, 800, 3000
 	}
-	return 120, 60, 200
+	return 360, 180, 600
 }
 
 // The three kinds are interleaved with a fixed period so that idx%nbatch batches and the -limit prefix used by
-// the race pass contain every kind: quick period 19 = 6 dynamic + 3 static + 10 micro (x20 = 120/60/200);
+// the race pass contain every kind: quick period 19 = 6 dynamic + 3 static + 10 micro (x60 = 360/180/600);
 // thorough period 29 = 10 + 4 + 15 (x200 = 2000/800/3000).
 func kindOf(tier string, idx int) (kind string, ordinal int) {
 	pd, ps, pm := 6, 3, 10
@@ -147,7 +147,7 @@ func run(r *mon.Report, tier string, idx int, rng *rand.Rand) {
 func init() {
 	reg.Register(&reg.Prop{
 		ID: "C03", Level: "exploration", Race: true, RaceIsViolation: true,
-		Rule: "three case kinds interleaved over the index space (quick 120 dynamic + 60 static + 200 micro; thorough 2000 + 800 + 3000). " +
+		Rule: "three case kinds interleaved over the index space (quick 360 dynamic + 180 static + 600 micro; thorough 2000 + 800 + 3000). " +
 			"dynamic: generated world (catalog, 1-2 NodePools with boundary limits on cpu/memory/nodes/gpu, daemonsets) x 3-8 rounds of {pending pods, informer deliveries (full or partial), real Provisioner.Reconcile, lifecycle launch under hostile provider policy, partial registration/initialisation, binds, external deletes, finalisation, restart}; non-trivial when a limited pool held launched capacity while the oracle ran; distinct by (limited resources, provider policy, limit reached?, pools, restart?). " +
 			"static: StaticCapacity world with 1-2 replica NodePools with limits.nodes x 12-30 PRNG-ordered steps of the real static provisioning/deprovisioning, disruption(StaticDrift)+queue, hash, nodeclaim-disruption, lifecycle and informer controllers with replica/template edits, external deletes, API faults, mid-reconcile interleavings and concurrent rounds, then <=40 fault-free settling rounds; non-trivial when a NodeClaim create was checked against limits.nodes; distinct by (replicas vs limit relation, events used, drift?, concurrent?). " +
 			"micro: 8-16 goroutines x <=60 operations on one real state.NodePoolState; non-trivial when a ReserveNodeCount grant was checked; distinct by (goroutines, pools, limit, op mix bucket).",
